@@ -66,6 +66,16 @@ def register(reg):
                  ('masks.append(mask1 | mask2)', 'masks.append(mask1)')],
     ))
     reg.add(Contract(
+        target=f'{S}._all_masked', props=['C07'], kind='property',
+        params={'self': 'SourceCatalog'},
+        ensures=[('one-per-source', 'len(result) == len(self._cutout_total_masks)'),
+                 ('true-exactly-when-every-pixel-of-the-cutout-is-masked',
+                  'forall(lambda k: iff(result[k], forall(lambda i, j: '
+                  'self._cutout_total_masks[k][i, j], (0, self._cutout_total_masks[k].shape[0]), '
+                  '(0, self._cutout_total_masks[k].shape[1]))), (0, len(result)))')],
+        mutants=[('np.all(mask)', 'np.any(mask)'), ('np.all(mask)', 'np.all(~mask)')],
+    ))
+    reg.add(Contract(
         target=f'{S}._moment_data_cutouts', props=['C07'], kind='property',
         params={'self': 'SourceCatalog'},
         requires=[same_len('_convdata_cutouts', '_cutout_total_masks'),
